@@ -324,7 +324,23 @@ func checkIndexedSelectStale(c *sim.Ctx, h *c08Handle, w *world.World, t *sq.Tab
 		want[i] = projectRow(t, e.Pos, cols)
 	}
 	if eq, at := rowsEqModDefaults(c, t, cols, want, r.Rows); !eq {
-		c.Fail("stale-read", "stale-index-read:"+cfg, fmt.Sprintf("handle %s (opened at v%d, cache %d) IndexedSelect(%s,%s) at v%d differs from the committed content at row %d", h.name, h.opened, h.cache, t.Name, ix.Name, w.Version, at), detail)
+		// is it staleness (a fresh handle reads it right) or does every handle read it so?
+		fr := ops.Result{}
+		if fd, err := sqlittle.Open(w.Path); err == nil {
+			fr = ops.Run(fd, ops.Op{Kind: "ixselect", Table: t.Name, Index: ix.Name, Cols: cols}, nil)
+			fd.Close()
+		}
+		freshSame, _ := rowsEq(fr.Rows, r.Rows, false)
+		detail["fresh_handle_reads_the_same"] = freshSame
+		detail["want"] = fmtRows(want, at)
+		detail["got"] = fmtRows(r.Rows, at)
+		if freshSame {
+			// not a property of the handle's history: index order / content questions belong to
+			// C02 (which compares fresh handles with SQLite); counted, not reported here
+			c.Inc("index_read_differs_on_fresh_handle_too", 1)
+			return
+		}
+		c.Fail("stale-read", "stale-index-read:"+cfg, fmt.Sprintf("handle %s (opened at v%d, cache %d) IndexedSelect(%s,%s) at v%d differs from the committed content at row %d: want %s got %s (a fresh handle reads %d rows, the same as this handle: %v)", h.name, h.opened, h.cache, t.Name, ix.Name, w.Version, at, fmtRows(want, at), fmtRows(r.Rows, at), len(fr.Rows), freshSame), detail)
 	}
 }
 
